@@ -45,9 +45,10 @@ const (
 	OpWait   // harness gate: enabled when its predicate holds
 	OpAccess // hooked shared-memory access made visible as a point
 	OpEnd
+	OpLockAcq // second half of RWMutex.Lock: the announced writer waits for the readers to leave
 )
 
-var opNames = [...]string{"start", "lock", "rlock", "wgadd", "wgdone", "wgwait", "spawn", "spin", "obs", "wait", "acc", "end"}
+var opNames = [...]string{"start", "lock", "rlock", "wgadd", "wgdone", "wgwait", "spawn", "spin", "obs", "wait", "acc", "end", "lockacq"}
 
 func (k OpKind) String() string {
 	if int(k) < len(opNames) {
@@ -73,6 +74,7 @@ type ObjRef struct {
 }
 
 type muState struct {
+	pending *thread // RWMutex: writer that announced itself and waits for the readers to leave
 	writer  *thread
 	readers int
 	vc      []uint32 // release clock (writer unlocks and reader unlocks joined)
@@ -106,8 +108,10 @@ type thread struct {
 	phash   uint64
 	// fairness for spin loops: threads that must step (or be disabled/done) before this one is
 	// enabled again, with their step counts at the time of the yield
-	spinWait map[*thread]int
-	ch       *chanOp // pending channel operation (chan.go)
+	spinWait  map[*thread]int
+	ch        *chanOp // pending channel operation (chan.go)
+	signalled bool    // condition variable: selected by a Signal / Broadcast
+	sigVC     []uint32
 }
 
 // PointRec describes one recorded choice point of an execution.
@@ -165,8 +169,9 @@ type Exec struct {
 	TraceLog   []string
 	hb         map[string][]uint32 // harness HB keys
 	chans      map[unsafe.Pointer]*chanState
-	det        bool   // deterministic tail: no further choice points are recorded
-	fp         uint64 // running fingerprint of the Mazurkiewicz trace (xor of event hashes)
+	conds      map[uint32][]*thread // waiters per condition variable
+	det        bool                 // deterministic tail: no further choice points are recorded
+	fp         uint64               // running fingerprint of the Mazurkiewicz trace (xor of event hashes)
 	divergence string
 }
 
@@ -346,10 +351,16 @@ func (e *Exec) isEnabled(t *thread) bool {
 	switch t.op {
 	case OpLock:
 		m := e.mus[t.obj]
+		if t.arg == 1 { // RWMutex.Lock: may announce itself while readers are inside (see LockRW)
+			return m == nil || (m.writer == nil && m.pending == nil)
+		}
 		return m == nil || (m.writer == nil && m.readers == 0)
+	case OpLockAcq:
+		m := e.mus[t.obj]
+		return m == nil || m.readers == 0
 	case OpRLock:
 		m := e.mus[t.obj]
-		return m == nil || m.writer == nil
+		return m == nil || (m.writer == nil && m.pending == nil)
 	case OpWGWait:
 		w := e.wgs[t.obj]
 		return w == nil || w.n == 0
@@ -562,6 +573,44 @@ func (e *Exec) Lock(r *ObjRef) {
 	m := e.mu(id)
 	if m.writer != nil || m.readers != 0 {
 		InternalError("scheduled a Lock on a held mutex")
+	}
+	m.writer = t
+	joinVC(&t.vc, m.vc)
+	joinVC(&t.dc, m.dc)
+	joinVC(&t.dc, m.rdc)
+	e.event(t, OpLock, 0)
+	m.dc = cloneVC(t.dc)
+	m.rdc = nil
+}
+
+// LockRW models sync.RWMutex.Lock, which prefers writers: once a writer has announced itself, new
+// readers block even though earlier readers are still inside (a recursive read lock therefore
+// deadlocks against a waiting writer). With no reader inside, announcing and acquiring are one step;
+// otherwise the announcement is a step of its own and the acquisition waits for the readers to leave.
+func (e *Exec) LockRW(r *ObjRef) {
+	id := e.objID(r)
+	t := e.point(OpLock, id, 1, nil)
+	if t.aborted {
+		return
+	}
+	m := e.mu(id)
+	if m.writer != nil || m.pending != nil {
+		InternalError("scheduled an RWMutex.Lock while another writer holds or awaits the lock")
+	}
+	if m.readers != 0 {
+		m.pending = t
+		joinVC(&t.dc, m.dc)
+		joinVC(&t.dc, m.rdc)
+		e.event(t, OpLock, 1)
+		m.dc = cloneVC(t.dc)
+		e.point(OpLockAcq, id, 0, nil)
+		m.pending = nil
+		if t.aborted {
+			return
+		}
+		if m.readers != 0 {
+			InternalError("scheduled the acquisition of an RWMutex with readers inside")
+		}
 	}
 	m.writer = t
 	joinVC(&t.vc, m.vc)
@@ -893,4 +942,57 @@ func Deterministic(on bool) {
 	if e := cur; e != nil {
 		e.det = on
 	}
+}
+
+// ---- condition variables ----
+
+// CondWait models sync.Cond.Wait: release the lock, park until a Signal/Broadcast issued after this
+// call selects this waiter, re-acquire the lock.
+func (e *Exec) CondWait(r *ObjRef, unlock, lock func()) {
+	t := e.running
+	if t.aborted {
+		return
+	}
+	id := e.objID(r)
+	if e.conds == nil {
+		e.conds = map[uint32][]*thread{}
+	}
+	e.conds[id] = append(e.conds[id], t)
+	t.signalled = false
+	unlock()
+	e.point(OpWait, id, 0, func() bool { return t.signalled })
+	if t.aborted {
+		return
+	}
+	joinVC(&t.vc, t.sigVC)
+	e.logEvent(t, OpWait)
+	lock()
+}
+
+// CondSignal models Signal (all=false: the longest waiting thread) and Broadcast (all=true).
+func (e *Exec) CondSignal(r *ObjRef, all bool) {
+	t := e.running
+	if t.aborted {
+		return
+	}
+	id := e.objID(r)
+	e.point(OpObs, id, 0, nil)
+	if t.aborted {
+		return
+	}
+	if e.conds == nil {
+		e.conds = map[uint32][]*thread{}
+	}
+	ws := e.conds[id]
+	n := len(ws)
+	if !all && n > 1 {
+		n = 1
+	}
+	for _, w := range ws[:n] {
+		w.signalled = true
+		w.sigVC = cloneVC(t.vc)
+	}
+	e.conds[id] = ws[n:]
+	t.tick()
+	e.logEvent(t, OpObs)
 }
